@@ -1033,6 +1033,105 @@ impl<W: Write> NcRunner<W> {
                 }
                 self.emit(json!({"ev":"tokenbytes","len":b.len(),"shape":gets(st,"shape"),"res":res,"panic":panic,"pmsg":pmsg}));
             }
+            "rt_netcode" => {
+                let kind = gets(st, "kind").to_string();
+                let seq = getu(st, "seq");
+                let key = KEY_F;
+                let payload = vec![0x3Cu8; getu(st, "plen") as usize];
+                let r = guarded(|| {
+                    let packet = match kind.as_str() {
+                        "KeepAlive" => Packet::KeepAlive { client_index: 3, max_clients: 9 },
+                        "Disconnect" => Packet::Disconnect,
+                        "Denied" => Packet::ConnectionDenied,
+                        "Payload" => Packet::Payload(&payload),
+                        "Challenge" => Packet::Challenge { token_sequence: seq ^ 0x55, token_data: [7u8; 300] },
+                        "Response" => Packet::Response { token_sequence: seq ^ 0x55, token_data: [9u8; 300] },
+                        _ => Packet::ConnectionRequest { version_info: *b"NETCODE 1.02\0", protocol_id: 7, expire_timestamp: seq, xnonce: [1u8; 24], data: [2u8; 1024] },
+                    };
+                    let mut buf = [0u8; 1400];
+                    match packet.encode(&mut buf, PROTO_P, Some((seq, &key))) {
+                        Err(_) => ("enc_err", 0usize, false),
+                        Ok(len) => {
+                            let mut copy = buf[..len].to_vec();
+                            match Packet::decode(&mut copy, PROTO_P, Some(&key), None) {
+                                Ok((s2, q)) => ("ok", len, q == packet && (s2 == seq || kind == "Request")),
+                                Err(_) => ("dec_err", len, false),
+                            }
+                        }
+                    }
+                });
+                let (res, len, ok) = r.clone().unwrap_or(("panic", 0, false));
+                self.emit(json!({"ev":"rt","layer":"netcode","kind":kind,"res":res,"len":len,"ok":ok,"shape":gets(st,"shape"),"panic":r.is_err()}));
+            }
+            "rt_token" => {
+                let hosts: Vec<SocketAddr> = st["hosts"].as_array().map(|a| a.iter().map(|x| {
+                    let v = x.as_u64().unwrap_or(1);
+                    if v >= 1000 { format!("[2001:db8::{:x}]:{}", v, 6000 + v % 100).parse().unwrap() } else { srv_addr(v % 250 + 1) }
+                }).collect()).unwrap_or_default();
+                let r = guarded(|| {
+                    let t = match ConnectToken::generate(Duration::from_secs(getu(st, "create")), PROTO_P, getu(st, "expire_s"), getu(st, "id"), geti(st, "timeout_s") as i32,
+                                                       hosts.clone(), Some(&user_data(getu(st, "ud"))), &KEY_K) {
+                        Ok(t) => t,
+                        Err(_) => return ("gen_err", false),
+                    };
+                    let mut b: Vec<u8> = vec![];
+                    if t.write(&mut b).is_err() {
+                        return ("write_err", false);
+                    }
+                    let t2 = match ConnectToken::read(&mut &b[..]) {
+                        Ok(x) => x,
+                        Err(_) => return ("read_err", false),
+                    };
+                    let mut b2: Vec<u8> = vec![];
+                    let _ = t2.write(&mut b2);
+                    // seal / open of the private part through the crate's own functions
+                    let p = match renetcode::verif::private_token_decode(&t.private_data, PROTO_P, t.expire_timestamp, &t.xnonce, &KEY_K) {
+                        Ok(p) => p,
+                        Err(_) => return ("open_err", false),
+                    };
+                    let sealed = renetcode::verif::private_token_encode(&p, PROTO_P, t.expire_timestamp, &t.xnonce, &KEY_K);
+                    let again = sealed.ok().and_then(|s| renetcode::verif::private_token_decode(&s, PROTO_P, t.expire_timestamp, &t.xnonce, &KEY_K).ok());
+                    let same_private = again.as_ref() == Some(&p) && p.client_id == getu(st, "id") && p.server_addresses == t.server_addresses
+                        && p.client_to_server_key == t.client_to_server_key && p.server_to_client_key == t.server_to_client_key;
+                    ("ok", t2 == t && b2 == b && same_private)
+                });
+                let (res, ok) = r.clone().unwrap_or(("panic", false));
+                self.emit(json!({"ev":"rt","layer":"token","kind":"ConnectToken","res":res,"len":hosts.len(),"ok":ok || res == "gen_err","shape":gets(st,"shape"),"panic":r.is_err()}));
+            }
+            "re_netcode" => {
+                // a datagram that decodes (with the key of its session) re-encodes to bytes that decode to the same value
+                let k = match w.resolve(&st["d"]) {
+                    Some(k) => k,
+                    None => {
+                        self.skipped += 1;
+                        self.emit(json!({"ev":"skip","why":"no such datagram"}));
+                        return;
+                    }
+                };
+                let (b, _) = Self::mutate(&w.emitted[k - 1].bytes, st);
+                let keys = w.keys();
+                let r = guarded(|| {
+                    for (_, key) in keys.iter() {
+                        let mut copy = b.clone();
+                        if let Ok((seq, p)) = Packet::decode(&mut copy, PROTO_P, Some(key), None) {
+                            let mut buf = [0u8; 1400];
+                            return match p.encode(&mut buf, PROTO_P, Some((seq, key))) {
+                                Err(_) => (true, false),
+                                Ok(len) => {
+                                    let mut c2 = buf[..len].to_vec();
+                                    match Packet::decode(&mut c2, PROTO_P, Some(key), None) {
+                                        Ok((s2, q)) => (true, s2 == seq && format!("{:?}", q) == format!("{:?}", p)),
+                                        Err(_) => (true, false),
+                                    }
+                                }
+                            };
+                        }
+                    }
+                    (false, true)
+                });
+                let (dec, ok) = r.clone().unwrap_or((false, false));
+                self.emit(json!({"ev":"re","layer":"netcode","decodable":dec,"ok":ok,"len":b.len(),"shape":gets(st,"shape"),"panic":r.is_err()}));
+            }
             "mark" => {
                 // markers for bounded liveness (heal, good round ends) pass through to the trace
                 let mut v = st.clone();
